@@ -296,27 +296,6 @@ pub(crate) mod verif_logic {
         }
         check_log(&ops, &log, k);
     }
-    //@ob name=C05.probe.or_heap props=C05 tier=thorough strength=bounded bound="probe" fns=op::logic::or stubs=4 timeout=50 cutdrop=1 group=medium
-    //@ desc="diagnostic probe: operands that live in a heap Vec"
-    #[cfg_attr(kani, kani::proof)]
-    #[cfg_attr(kani, kani::unwind(10))]
-    #[cfg_attr(kani, kani::stub(<serde_json::Value as std::clone::Clone>::clone, crate::verif_support::value_clone_shallow))]
-    #[cfg_attr(kani, kani::stub(crate::value::Parsed::from_value, crate::value::Parsed::verif_from_value_stub))]
-    #[cfg_attr(kani, kani::stub(crate::value::Parsed::evaluate, crate::value::Parsed::verif_evaluate_stub))]
-    #[cfg_attr(kani, kani::stub(std::fmt::format, crate::verif_support::fmt_stub))]
-    pub(crate) fn k_probe_or_heap() {
-        let ops = setup(1, 1);
-        let mut hv: Vec<Value> = Vec::with_capacity(2);
-        hv.push(Value::Null);
-        let hv = MD::new(hv);
-        ev::register(&hv[0], 1, &*ops.outs[0] as *const Value);
-        let mut v: Vec<&Value> = Vec::with_capacity(2);
-        v.push(&hv[0]);
-        let args = MD::new(v);
-        let r = MD::new(or(&ops.data, &args));
-        kani::cover!(true, "returned");
-        check_result(&ops, &r, Some(0), false);
-    }
 //@GENERATED-LAZY
     //@ob name=C05.or.1.E harness=k_c05_or_1_E props=C05,C04 tier=quick strength=bounded bound="1 operands; outcome pattern E (E=error, N=new value, R=raw value); truthiness of every value symbolic" fns=op::logic::or stubs=4 timeout=300 cutdrop=1 group=medium
     //@ desc="or over 1 operands: result (the deciding operand's value itself, or error/null) and the exact evaluation log (which operands, in which order, each at most once, against the outer data) equal the spec; the parser is applied to rule text only; the decision is by truthy"
